@@ -195,7 +195,7 @@ def run(ctx):
     ]
     ctx.not_proved = ["IEEE rounding is not modelled in theorems: they are generic in the number type (hold for doubles as they are)",
                       "summate_incompr has no prange; its refinement to a closed-form spec is not proved, it is tied by translation + execution",
-                      "directional: schedule independence proved for the unstructured/structured estimators; see props/C15.v for the exact list"]
+                      "all eight prange kernels are proved; the exact statements are in coq/props/C15.v"]
     # 1. tie by translation
     gen = C.regenerate()
     tie_broken = [k for k, v in gen.items() if v]
